@@ -286,6 +286,22 @@ pub fn run(ctx: &Ctx) {
             vals.push(Value::U64(x as u64 * 1_000_003));
             vals.push(Value::I64(-(x as i64) * 1_000_003));
         }
+        // "generic" bit patterns (fixed multiplicative-hash constants): nothing a boundary alphabet shares;
+        // every 4th has its top bit forced (upper half of the unsigned range), plus alternating patterns
+        for i in 1..=256u64 {
+            let mut w = i.wrapping_mul(0x9E37_79B9_7F4A_7C15);
+            if i % 4 == 0 {
+                w |= 1 << 63;
+            }
+            vals.push(Value::U64(w));
+            vals.push(Value::I64(w as i64));
+            vals.push(Value::U32((w >> 32) as u32));
+            vals.push(Value::I32((w >> 32) as u32 as i32));
+        }
+        for w in [0xAAAA_AAAA_AAAA_AAAAu64, 0x5555_5555_5555_5555, 0x8000_0000_0000_0401, 0xFFFF_FFFF_FFFF_F801, 0x8000_0000_0000_0001, 0xC000_0000_0000_0003, 0xFEDC_BA98_7654_3211] {
+            vals.push(Value::U64(w));
+            vals.push(Value::I64(w as i64));
+        }
         let mut qs: Vec<f32> = vec![];
         for e in 0..=255u32 {
             for m in [0u32, 1, 0x0040_0000, 0x007F_FFFF, 0x0012_3456] {
@@ -320,7 +336,7 @@ pub fn run(ctx: &Ctx) {
         let sp = Space::new(&[fk.len(), vals.len(), qs.len(), os.len()]);
         let s2 = sp.clone();
         let (vals, qs, os) = (&vals, &qs, &os);
-        ctx.run_family(Family::new("c18.dense", sp.size(), format!("4 fixed-point kinds x {} integer values (all 256 of the 8-bit types, 16-bit every 251st + boundaries, walking ones/zeros of the 32/64-bit types, mid-range constants) x {} quantizations (every f32 exponent x 5 mantissas x sign; decimal and power-of-two constants) x {} offsets", vals.len(), qs.len(), os.len()), move |i, loc| {
+        ctx.run_family(Family::new("c18.dense", sp.size(), format!("4 fixed-point kinds x {} integer values (all 256 of the 8-bit types, 16-bit every 251st + boundaries, walking ones/zeros of the 32/64-bit types, mid-range constants, 256 generic multiplicative-hash constants per 32/64-bit type with the upper half of u64 represented) x {} quantizations (every f32 exponent x 5 mantissas x sign; decimal and power-of-two constants) x {} offsets", vals.len(), qs.len(), os.len()), move |i, loc| {
             let c = s2.coords(i);
             judge(fk[c[0]].clone(), vals[c[1]].clone(), Some(FixedPoint { quantization: qs[c[2]], offset: os[c[3]].clone() }), i, loc);
         }).distinct());
